@@ -443,6 +443,18 @@ def load_tables(rjson):
     return tables
 
 
+def overlap_universe():
+    """Second exhaustive universe, aimed at two shapes a small random choice rarely produces:
+    (a) multi-field segments that mix a converted and a plain field at two consecutive levels ({m:int}.{x} above
+        {k:int}-{n}) with a single-field sibling below -- the values of the outer segment must survive the inner
+        match, and an inner veto must leave nothing behind;
+    (b) a literal ('7.q') or an earlier multi-field sibling ({g}-{h}) that matches the same path segment as a later
+        multi-field sibling which alone has a continuation -- the walk must backtrack to the later sibling."""
+    segs = [seg('7.q'), seg(fld('m', INT), '.', fld('x')), seg(fld('k', INT), '-', fld('n')), seg(fld('y')),
+            seg(fld('g'), '-', fld('h'))]
+    return Universe(segs), ['7.q', '7-q', 'q-q', '7.q-q']
+
+
 def sim_universe():
     """the larger universe of the simulated histories (leg A): converters with arguments, float, a converter
     inside a multi-field segment, three multi-field shapes that can match the same representative"""
@@ -451,8 +463,10 @@ def sim_universe():
             seg(fld('z', conv('int', nd=2))), seg(fld('w', conv('int', lo=3, hi=50))), seg(fld('f', conv('float'))),
             seg(fld('p', path)), seg(fld('m'), '.', fld('n')), seg(fld('k'), '-', fld('n')),
             seg(fld('m', INT), '.', fld('x')), seg('v', fld('q')), seg(fld('m'), '.', fld('p', path)),
-            seg(fld('g', conv('nope'))), seg(fld('9x')), seg('a b')]
-    ps = ['a', 'b', '', 'a.b', '7', '42', '007', ' 7', 'q', 'u.v', '1-2.3', '7.q', '1.5', 'va', 'inf']
+            seg(fld('g', conv('nope'))), seg(fld('9x')), seg('a b'),
+            seg('7.q'), seg(fld('j', INT), '-', fld('h'))]
+    ps = ['a', 'b', '', 'a.b', '7', '42', '007', ' 7', 'q', 'u.v', '1-2.3', '7.q', '1.5', 'va', 'inf',
+          '7-q', 'q-q', '7.q-q']
     return Universe(segs), ps
 
 
@@ -550,6 +564,56 @@ def seg_reps(s, rng):
     return out
 
 
+GOOD_BAD = [(conv('int'), '7', 'x7'), (conv('int', nd=2), '42', '7'), (conv('int', lo=3, hi=50), '17', '51'),
+            (conv('float'), '1.5', 'latest')]
+
+
+def scenario(rng, names):
+    """Sibling/nesting shapes that a random table produces only by luck; returns (templates as lists of segments,
+    probe paths).  0: multi-field segments mixing a converted and a plain field at two consecutive levels, with a
+    single-field or literal sibling below; 1: a literal that an earlier/later multi-field sibling also matches, the
+    continuation existing under one of them only; 2: two multi-field shapes matching the same segment, likewise."""
+    pre = [seg(rng.choice(['pkg', 'cmp', 'v1', 'a']))] if rng.random() < 0.7 else []
+    ptx = [render_seg(x) for x in pre]
+    a, b, c, d, e = rng.sample(names, 5)
+    kind = rng.randrange(3)
+    if kind == 0:
+        (c1, g1, b1), (c2, g2, b2) = rng.choice(GOOD_BAD), rng.choice(GOOD_BAD)
+        s1, s2 = rng.choice(['.', '-', ':']), rng.choice(['.', '-', ':'])
+        first1, first2 = rng.random() < 0.7, rng.random() < 0.7          # converted field first?
+        m1 = seg(fld(a, c1), s1, fld(b)) if first1 else seg(fld(b), s1, fld(a, c1))
+        m2 = seg(fld(c, c2), s2, fld(d)) if first2 else seg(fld(d), s2, fld(c, c2))
+        sib = seg(fld(e)) if rng.random() < 0.6 else seg('latest')
+        def inst(first, cv, sep, plain):  # noqa
+            return cv + sep + plain if first else plain + sep + cv
+        tps = [pre + [m1, m2], pre + [m1, sib]]
+        if rng.random() < 0.3:
+            tps.append(pre + [m1, m2, seg(fld(e) if sib['items'][0]['t'] == 'lit' else 'tail')])
+        o1 = inst(first1, g1, s1, 'beta')
+        probes = [ptx + [o1, inst(first2, g2, s2, 'x86')], ptx + [o1, inst(first2, b2, s2, 'x86')],
+                  ptx + [o1, 'latest'], ptx + [inst(first1, b1, s1, 'beta'), inst(first2, g2, s2, 'x86')],
+                  ptx + [o1, inst(first2, g2, s2, 'x86'), 'tail']]
+    elif kind == 1:
+        sp = rng.choice(['.', '-', '+'])
+        cx = seg(fld(a), sp, fld(b)) if rng.random() < 0.7 else seg(fld(a), sp, fld(b, conv('int', nd=2)))
+        text = 'index' + sp + '42'
+        cont = seg('meta') if rng.random() < 0.6 else seg(fld(c))
+        tps = [pre + [seg(text)], pre + [cx, cont]]
+        if rng.random() < 0.4:
+            tps.append(pre + [seg(text), seg('own')])
+        probes = [ptx + [text, 'meta'], ptx + [text], ptx + [text, 'own'], ptx + [text, 'zz'], ptx + ['other' + sp + '42', 'meta']]
+    else:
+        s1, s2 = rng.choice([('...', ':'), ('.', '-'), ('-', '+'), ('(', ')')])
+        cx1, cx2 = seg(fld(a), s1, fld(b)), seg(fld(c), s2, fld(d))
+        val = 'u' + s2 + '1' + s1 + 'v' + s2 + '2'
+        tps = [pre + [cx1], pre + [cx2, seg('short')]]
+        if rng.random() < 0.4:
+            tps.append(pre + [cx1, seg(fld(e))] if rng.random() < 0.5 else pre + [cx2])
+        probes = [ptx + [val, 'short'], ptx + [val], ptx + [val, 'zz'], ptx + ['u' + s1 + 'v', 'short']]
+    rng.shuffle(tps)
+    return tps, probes
+
+
 def random_trace(rng, u, nadds, nfinds, maxdepth=4):
     """Drives a Pair with a random table; returns (events, info)."""
     suffix = rng.choice('abcdefgh')
@@ -559,6 +623,14 @@ def random_trace(rng, u, nadds, nfinds, maxdepth=4):
     seg_pool = []                  # segments used so far (ids), reused to make siblings and shared prefixes
     evs, nontrivial = [], False
     reps = ['', 'zzz', 'q']
+    script, probes = {}, []        # scripted adds (position -> template), probe paths of the scenarios
+    if rng.random() < 0.7:
+        tps_, probes = scenario(rng, names)
+        if nadds >= 12 and rng.random() < 0.5:
+            t2, p2 = scenario(rng, names)
+            tps_, probes = tps_ + t2, probes + p2
+        for pos, t_ in zip(sorted(rng.sample(range(nadds), len(tps_))), tps_):
+            script[pos] = t_
 
     def new_template():
         tp = []
@@ -579,7 +651,11 @@ def random_trace(rng, u, nadds, nfinds, maxdepth=4):
 
     def new_path():
         t = rng.random()
-        if acc and t < 0.75:
+        if probes and rng.random() < 0.2:
+            segs = list(rng.choice(probes))
+            if rng.random() < 0.15:
+                segs[rng.randrange(len(segs))] = rng.choice(reps)
+        elif acc and t < 0.75:
             tp = rng.choice(acc)
             segs = []
             for sid in tp:
@@ -603,7 +679,7 @@ def random_trace(rng, u, nadds, nfinds, maxdepth=4):
 
     finds_left = nfinds
     for i in range(nadds):
-        tp = new_template()
+        tp = [u.add(x) for x in script[i]] if i in script else new_template()
         for sid in tp:
             if sid not in seg_pool:
                 seg_pool.append(sid)
@@ -694,6 +770,11 @@ def run(ctx):
         raise MachineryError('MC_Router printed no decision table')
     ctx.extra['decision_table_states'] = len(tables)
     ctx.progress('leg M: %d states, %d table states' % (r.distinct, len(tables)))
+    uo, pso = overlap_universe()
+    uopath = uo.write(os.path.join(ctx.scratch, 'mc_universe_o.json'), pso)
+    ro = ctx.tlc('MC_Router', 'MC_Router.cfg', env={'ROUTER_UNIVERSE': uopath}, workers=W, timeout=1500)
+    otables = load_tables(ro.json)
+    ctx.progress('leg M (nesting/overlap universe): %d states, %d table states' % (ro.distinct, len(otables)))
     big = None
     if not ctx.quick:
         r3 = ctx.tlc('MC_Router', 'MC_RouterT.cfg', env=env, workers=W, timeout=3000)
@@ -716,13 +797,13 @@ def run(ctx):
     # ---- leg A1: the decision table replayed: every history of <= 2 adds, complete lookup tables ----
     rng = ctx.rng
     n = lookups = 0
-    for uu, pp, tabs in [(u, ps, tables)] + ([big] if big else []):
+    for uu, pp, tabs in [(u, ps, tables), (uo, pso, otables)] + ([big] if big else []):
         rp = Replayer(ctx, uu)
         tps = all_templates(uu, 2)
         moves = [(tp, c) for tp in tps for c in (False, True)]
         P2, P3 = all_paths(pp, 2), all_paths(pp, 3)
         P3only = P3[len(P2):]
-        nsample = ctx.pick(15, 40)
+        nsample = len(P3only) if uu is uo else ctx.pick(15, 40)      # the small universe: complete tables
         for m1 in moves:
             for m2 in moves:
                 n += 1
